@@ -31,7 +31,9 @@ module Ringasis = struct
   let rec_same = add_signed_mul_same_len w64 ts tk
   let rec_gen = add_signed_mul w64 ts tk chunk
   (* work bound for running the word-level model inside the oracle *)
-  let small la lb = la * lb <= 250000
+  (* the extracted multipliers build their fuel-indexed closures eagerly (OCaml is strict): quadratic in
+     la + lb, so the word-level model is only run below 6000 words in total *)
+  let small la lb = la * lb <= 250000 && la + lb <= 6000
   let typed v = typed_of_value w64 v
   let nwords v = (Zar.numbits v + 63) / 64
   let own_of = function "vv" | "av" -> OVV | "vr" | "ar" -> OVR | "rv" -> ORV | _ -> ORR
